@@ -372,6 +372,7 @@ package logql
 //@   ensures[selector] ret1 == nil ==> sel_called && same(ret0.Sel, sel_r0)
 //@   ensures[range-is-the-bracketed-duration] ret1 == nil ==> rng_called && ret0.Range == rng_r0 && before(rng_called, p.pos >= 1 && tokType(p, p.pos-1) == lexer.OpenBracket)
 //@   ensures[offset-follows-the-keyword] ret1 == nil ==> (ret0.Offset != nil) == off_called && (off_called ==> ret0.Offset.Duration == off_r0 && before(off_called, p.pos >= 1 && tokType(p, p.pos-1) == lexer.Offset))
+//@   ensures[offset-accepted-after-a-trailing-range] ret1 == nil && before(rng_called, p.pos) > before(pl_called, p.pos) && !off_called ==> peekTok(p) != lexer.Offset
 //@   ensures[pipeline-may-end-in-unwrap] ret1 == nil ==> pl_called && pl_a0 && same(ret0.Pipeline, pl_r0)
 //@   ensures[unwrap] ret1 == nil ==> (ret0.Unwrap != nil ==> uw_called && ret0.Unwrap == uw_r0) && (!uw_called ==> ret0.Unwrap == nil)
 
